@@ -195,4 +195,22 @@ Accept(e) ==
   /\ hdr.maxMac = macSum                                                 \* the header announces the total number of section MACs
   /\ st' = "Accepted"
   /\ UNCHANGED <<hdr, cur, sec, needCert, hm, body, left, cmdAt, cov, certEnd, sigEnd, macSum, dec>>
+
+\* ---- structural boundaries.  The block positions an event speaks of: where a part of the file (header, header MAC, key blob, certificate
+\* block, digest, signature, section tag, tag HMAC, HMAC-table entry, HMAC chunk, command, section) begins or ends.  A file cut at such a
+\* position is the corruption class TRUNCATION at its most dangerous: every part in front of the cut is complete and verifies.  Used by the MC
+\* form (every layout is cut at every boundary of its ideal event list) and by the trace form (the driver must have cut the real file at every
+\* boundary of the events the automaton consumed).
+BoundsOf(e) ==
+  CASE e.ev = "ParseHeader"     -> {0, e.hdrBlocks, e.kbBlock, e.kbBlock + e.kbCount, e.imageBlocks}
+    [] e.ev = "CheckHeaderMac"  -> {e.over[1] \div 16, e.over[2] \div 16}
+    [] e.ev = "ParseCertBlock"  -> {e.at \div 16, e.endOff \div 16}
+    [] e.ev = "CheckSha"        -> {e.at \div 16, e.at \div 16 + 2}
+    [] e.ev = "VerifySignature" -> {e.sigAt \div 16, (e.sigAt + e.sigLen) \div 16}
+    [] e.ev = "SectionTag"      -> {e.at, e.at + 1, e.at + 3}
+    [] e.ev = "SectionHmac"     -> {e.entryAt, e.entryAt + 2, e.firstBlk, e.firstBlk + e.nBlk}
+    [] e.ev = "Cmd"             -> {e.at, e.at + 1, e.at + e.nBlk}
+    [] e.ev = "SectionEnd"      -> {e.next}
+    [] OTHER -> {}
+BoundsOfAll(es) == UNION {BoundsOf(es[k]) : k \in 1..Len(es)}
 =============================================================================
